@@ -10,9 +10,18 @@ import itertools
 from .. import core, bdd
 from ..core import Failure
 
-VARS = bdd.VARS4
-NV = 4
-FULL = bdd.tt_full(NV)
+VARSETS = [('a', 'b', 'c', 'd'), ('a', 'b', 'c', 'd', 'e'), ('x_1', 'Var', '_v', '\u00e9', 'T'),
+           ('a' * 30, 'b', 'notx', 'lambda_'), ('p', 'q', 'r')]
+SLOTS = ('v0', 'v1', 'v2', 'v3', 'v4')
+
+
+def rename(e, names):
+    """Expression over the slots v0..v4 -> expression over the machine's variable names."""
+    if e[0] == 'v':
+        return ('v', names[SLOTS.index(e[1]) % len(names)])
+    if e[0] == 'c':
+        return e
+    return (e[0],) + tuple(rename(c, names) for c in e[1:])
 
 
 def _lib():
@@ -26,6 +35,9 @@ class World(object):
 
     def __init__(self, orders):
         self.orders = [list(o) for o in orders]
+        self.vars = tuple(sorted(self.orders[0]))      # reference order of the truth tables
+        self.nv = len(self.vars)
+        self.full = bdd.tt_full(self.nv)
         self.pool = []          # entries [obdd, k, tt]
         self.held = []
         self.dropped = set()    # (k, tt) that were live and have been dropped
@@ -41,7 +53,7 @@ class World(object):
         self.counts[k] = self.counts.get(k, 0) + 1
 
     def _add(self, o, k, tt):
-        if (k, tt) in self.dropped and tt not in (0, FULL):
+        if (k, tt) in self.dropped and tt not in (0, self.full):
             self.flags.add('re-created a function that had been dropped')
         self.pool.append([o, k, tt])
 
@@ -57,22 +69,22 @@ class World(object):
         n = len(self.pool)
         if kind == 'parse':
             _, k, expr, style = op
-            expr = bdd.from_json(expr)
+            expr = rename(bdd.from_json(expr), self.vars)
             o = OBDD(bdd.to_str(expr, style), list(self.orders[k]))
-            self._add(o, k, bdd.eval_tt(expr, VARS))
+            self._add(o, k, bdd.eval_tt(expr, self.vars))
         elif kind == 'lambda':
             _, k, expr = op
-            expr = bdd.from_json(expr)
+            expr = rename(bdd.from_json(expr), self.vars)
             o = OBDD('lambda %s: %s' % (','.join(self.orders[k]), bdd.to_str(expr)))
-            self._add(o, k, bdd.eval_tt(expr, VARS))
+            self._add(o, k, bdd.eval_tt(expr, self.vars))
         elif kind == 'gc':
             gc.collect()
         elif kind == 'recreate':
             # build again, from its minterm form, a function that was live and has been dropped
-            cands = sorted(d for d in self.dropped if d[1] not in (0, FULL))
+            cands = sorted(d for d in self.dropped if d[1] not in (0, self.full))
             if cands:
                 k, tt = cands[op[1] % len(cands)]
-                o = OBDD(bdd.to_str(bdd.minterm_expr(tt, VARS)), list(self.orders[k]))
+                o = OBDD(bdd.to_str(bdd.minterm_expr(tt, self.vars)), list(self.orders[k]))
                 self._add(o, k, tt)
         elif kind == 'unhold':
             self.held = []
@@ -90,13 +102,30 @@ class World(object):
             else:
                 o, tt = a[0] ^ b[0], a[2] ^ b[2]
             self._add(o, a[1], tt)
+        elif kind == 'node':
+            # a diagram built directly from nodes (Shannon composition), not through apply
+            _, i, j, vi, unchecked = op
+            a = self.pool[i % n]
+            same = [e for e in self.pool if e[1] == a[1]]
+            b = same[j % len(same)]
+            order = self.orders[a[1]]
+            tops = [order.index(x[0].root.var) if not bdd.is_terminal(x[0].root) else len(order) for x in (a, b)]
+            limit = min(tops)
+            if limit > 0:
+                var = order[vi % limit]
+                node = BDDNode(var, a[0].root, b[0].root)
+                o = OBDD(node, list(order), check_ordering=False) if unchecked else OBDD(node, list(order))
+                vt = bdd.tt_var(self.vars.index(var), self.nv)
+                self._add(o, a[1], (vt & b[2]) | (self.full & ~vt & a[2]))
+                self.flags.add('diagram built directly from nodes')
         elif kind == 'inv':
             a = self.pool[op[1] % n]
-            self._add(~a[0], a[1], FULL & ~a[2])
+            self._add(~a[0], a[1], self.full & ~a[2])
         elif kind == 'restrict':
             _, i, v, b = op
             a = self.pool[i % n]
-            self._add(a[0].restrict(VARS[v], b), a[1], bdd.cofactor(a[2], v, bool(b), NV))
+            v %= self.nv
+            self._add(a[0].restrict(self.vars[v], b), a[1], bdd.cofactor(a[2], v, bool(b), self.nv))
         elif kind == 'restr':
             a = self.pool[op[1] % n]
             self._add(OBDD(str(a[0].root), list(self.orders[a[1]])), a[1], a[2])
@@ -128,7 +157,7 @@ class World(object):
         _, BDDNode = _lib()
         try:
             for e in self.pool:
-                if bdd.walk_tt(e[0].root, VARS) != e[2]:
+                if bdd.walk_tt(e[0].root, self.vars) != e[2]:
                     return 'pool entry no longer denotes its function (table %d)' % e[2]
             for a, b in itertools.combinations(self.pool, 2):
                 if a[1] != b[1]:
@@ -241,10 +270,10 @@ def machine_shard(st, shard, nshards, payload):
     from hypothesis.stateful import RuleBasedStateMachine, rule, invariant, initialize, \
         run_state_machine_as_test
 
-    perms = list(itertools.permutations(VARS))
-    exprs = bdd.st_expr(VARS, max_depth=3)
+    exprs = bdd.st_expr(SLOTS, max_depth=3)
     idx = hs.integers(0, 7)
     found = {}
+    varsets = {}
     totals = {'machines': 0, 'steps': 0}
     flagcount = {}
     opcount = {}
@@ -259,10 +288,13 @@ def machine_shard(st, shard, nshards, payload):
             self.log = []
             self.orders = None
 
-        @initialize(o1=hs.sampled_from(perms), o2=hs.sampled_from(perms))
-        def setup(self, o1, o2):
+        @initialize(vs=hs.sampled_from(VARSETS), data=hs.data())
+        def setup(self, vs, data):
+            o1 = data.draw(hs.permutations(list(vs)))
+            o2 = data.draw(hs.permutations(list(vs)))
             self.orders = [list(o1), list(o2)]
             self.world = World(self.orders)
+            varsets[vs] = varsets.get(vs, 0) + 1
 
         def _do(self, op):
             self.log.append(op)
@@ -291,11 +323,15 @@ def machine_shard(st, shard, nshards, payload):
         def combine(self, name, i, j):
             self._do(['bin', name, i, j])
 
+        @rule(i=idx, j=idx, vi=hs.integers(0, 4), unchecked=hs.booleans())
+        def compose_from_nodes(self, i, j, vi, unchecked):
+            self._do(['node', i, j, vi, unchecked])
+
         @rule(i=idx)
         def invert(self, i):
             self._do(['inv', i])
 
-        @rule(i=idx, v=hs.integers(0, NV - 1), b=hs.sampled_from([0, 1, False, True]))
+        @rule(i=idx, v=hs.integers(0, 4), b=hs.sampled_from([0, 1, False, True]))
         def restrict(self, i, v, b):
             self._do(['restrict', i, v, b])
 
@@ -370,6 +406,8 @@ def machine_shard(st, shard, nshards, payload):
         st.bump('machines where: ' + k, v)
     for k, v in opcount.items():
         st.bump('op ' + k, v)
+    for k, v in varsets.items():
+        st.bump('machines over %d variables (%s..)' % (len(k), k[0][:6]), v)
     if 'case' in found:
         case = found['case']
         gc.collect()
@@ -386,12 +424,14 @@ def machine_shard(st, shard, nshards, payload):
 
 
 def run(ctx):
-    ctx.rule = ('Hypothesis rule-based machines; each draws two orderings of {a,b,c,d} sharing the '
+    ctx.rule = ('Hypothesis rule-based machines; each draws a variable set (3-5 variables; plain, underscore/unicode, very '
+                'long names) and two orderings of it sharing the '
                 'global node table and runs up to N steps of parse (3 styles) / lambda parse / & | ^ '
-                '/ ~ / restrict / rebuild from str / alias / drop / drop-all-but-one / gc.collect / '
+                '/ ~ / restrict / Shannon composition directly from BDDNode objects (with and without check_ordering) / '
+                'rebuild from str / alias / drop / drop-all-but-one / gc.collect / '
                 'hold an inner node while dropping its OBDD / release held nodes / re-create a dropped '
                 'function from its minterm form.  The model of each '
-                'pool entry is a 16-bit truth table computed by the harness.  Invariant after every '
+                'pool entry is a truth table (2^n bits) computed by the harness.  Invariant after every '
                 'step: == and root identity coincide with truth-table equality for every pool pair '
                 'of one ordering; every live node in BDDNode.nodes() has a unique (var, low, high), '
                 'distinct children, one terminal per value; entries still denote their tables; '
